@@ -29,6 +29,7 @@ package router
 //@   pure-call
 //@   ensures ret0 == strOf(b)
 // package-level error values are initialised once with errors.New and never reassigned
+//@ constglobal errors.ErrKeyOutOfRange
 //@ axiom errKeyOutOfRange: errors.ErrKeyOutOfRange != nil
 
 // ---------------------------------------------------------------- C01 interface contracts (router.Rule, router.Shard)
